@@ -320,7 +320,7 @@ def gen_c04(rnd, n, thorough=False):
         for _ in range(rnd.randint(3, 10)):
             if rnd.chance(0.3):
                 now = advance(rnd, now, layout)
-            a = rnd.pick([-1, -1] + list(range(k)) + [-2, k, k + 1])
+            a = rnd.pick([-1, -1] + list(range(k)) + [-2, k, k + 1] + [rnd.pick([2 ** 32, 2 ** 32 + rnd.randrange(k), -2 ** 32, 2 ** 32 - 1, -2 ** 61, 2 ** 61 + 1, 2 ** 33 + 1, -2 ** 32 - 1])])      # ids whose low 32 bits name an archive are out of range all the same
             if 0 <= a < k:
                 S, N = layout[a]
             else:
@@ -461,7 +461,8 @@ def gen_c05(rnd, n, thorough=False):
         if rnd.chance(0.15):
             # the same file made unwritable for the process (mode 0444, effective uid dropped): what an
             # Open + update + Sync acknowledge must be what a later handle reads; refusing is fine
-            lines += ["drop f", "%s f %d %016x %d" % (rnd.pick(['unwritable', 'rosync']), now - rnd.randint(0, rets[0] - 1), value(rnd, False), now), "disk f", "open f"]
+            how = rnd.pick(['unwritable', 'rosync', 'rosync nofollow', 'rosync cloexec', 'rosync sync'])
+            lines += ["drop f", "%s f %d %016x %d%s" % (how.split()[0], now - rnd.randint(0, rets[0] - 1), value(rnd, False), now, ' ' + how.split()[1] if ' ' in how else ''), "disk f", "open f"]
             _observe(rnd, lines, layout, list(range(k)), now, nwin=1)
             tags['ops']['unwritable'] = 1
         cases.append({'id': 'c05-%d' % c, 'lines': lines, 'tags': tags})
